@@ -113,6 +113,31 @@ theorem rpartition_mem {c : Nat} {s : Str} (h : c ∈ s) :
     · intro hm
       exact not_mem_takeWhile_ne c s.reverse (List.mem_reverse.1 hm)
 
+/-- `rpartition` at a character that does not occur: Python gives `("", "", s)` -/
+theorem rpartition_not_mem {c : Nat} {s : Str} (h : c ∉ s) : rpartition c s = ([], false, s) := by
+  have hr : c ∉ s.reverse := fun hm => h (List.mem_reverse.1 hm)
+  unfold rpartition
+  simp only [partition_eq, hr, decide_false]
+  rfl
+
+theorem rpartition_snd_snd_of_mem_false {c : Nat} {s : Str} (h : mem c s = false) :
+    (rpartition c s).2.2 = s := by
+  rw [mem_eq] at h
+  rw [rpartition_not_mem (by simpa using h)]
+
+/-- the part after the last `c` is a part of the string -/
+theorem mem_of_mem_rpartition_snd_snd {c x : Nat} {s : Str} (h : x ∈ (rpartition c s).2.2) : x ∈ s := by
+  by_cases hc : c ∈ s
+  · have := (rpartition_mem hc).1
+    rw [this]; simp [h]
+  · rwa [rpartition_not_mem hc] at h
+
+theorem mem_rpartition_snd_snd_false {c x : Nat} {s : Str} (h : mem x s = false) :
+    mem x (rpartition c s).2.2 = false := by
+  rw [mem_eq] at h ⊢
+  have h' : x ∉ s := by simpa using h
+  simpa using fun hm => h' (mem_of_mem_rpartition_snd_snd hm)
+
 /-! ### cleaning -/
 
 theorem lstripSet_eq (chars s : Str) : lstripSet chars s = s.dropWhile (fun c => mem c chars) := by
